@@ -95,6 +95,7 @@ ANN_SRC = {
     "newtype": "UserId",
     "typevar": "T",
     "config": "Config",
+    "tupleann": "(int, str)",  # (return position only: not a type, dropped by the renderer)
 }
 # classes whose qualified name differs from their name (CincoStubs!QualAnn): kind -> (wrapper, class)
 QUAL_WRAP = {"": "%s", "list": "typing.List[%s]", "opt": "typing.Optional[%s]", "dict": "typing.Dict[str, %s]", "pep585": "list[%s]", "u604": "%s | None"}
@@ -757,7 +758,7 @@ def rnd_sig(rng, rare):
         params.append({"n": rng.choice(["kwargs", "kw", "opts"]), "k": "varkw", "d": False, "a": rnd_ann(rng, 0)})
         if params[-1]["n"] in taken:
             params.pop()
-    ret = rng.choice(["noret", "noret", "int", "none", "listint", "class", "fwd", "ctype", "optstr", "pep585", "union604", "callable"])
+    ret = rng.choice(["noret", "noret", "int", "none", "listint", "class", "fwd", "ctype", "optstr", "pep585", "union604", "callable", "tupleann"])
     if qual_of(rare) and rng.random() < qual_of(rare):
         ret = rng.choice(QUAL_ANNS)
     return {"params": params, "ret": ret}
